@@ -209,7 +209,12 @@ func (uconn *UConn) uApplyPatch() {
 	helloLen := len(uconn.HandshakeState.Hello.Raw)
 	if uconn.sessionController.shouldUpdateBinders() {
 		uconn.sessionController.updateBinders()
-		uconn.sessionController.setPskToUConn()
+		if uconn.handshakes == 0 {
+			// The state this sets (and checks) is that of the initial handshake. When
+			// the hello is rebuilt for a renegotiation, a completed TLS 1.2 handshake
+			// has replaced it, and TLS 1.2 never uses the PSK.
+			uconn.sessionController.setPskToUConn()
+		}
 	}
 	uAssert(helloLen == len(uconn.HandshakeState.Hello.Raw), "tls: uApplyPatch Failed: the patch should never change the length of the marshaled clientHello")
 }
